@@ -284,7 +284,13 @@ impl FieldValue {
                 )
             }
             FieldDataType::ProtocolType => {
-                let (i, protocol) = ProtocolTypes::parse(remaining)?;
+                // A protocol number without a name (146..=254) is still one byte of a valid
+                // record: report it as Unknown instead of failing the record and, with it,
+                // every record that follows in the flowset.
+                let (i, number) = take(1_usize)(remaining)?;
+                let protocol = ProtocolTypes::parse(number)
+                    .map(|(_, protocol)| protocol)
+                    .unwrap_or(ProtocolTypes::Unknown);
                 (i, FieldValue::ProtocolType(protocol))
             }
             FieldDataType::Float64 => {
